@@ -96,12 +96,18 @@ func (s *verifStream) replay() map[string]vOut {
 	return st
 }
 
-func verifHistory(steps int, twin bool) {
+func verifHistory(steps int, twin bool, byIndex bool) {
 	stop := make(chan struct{})
 	pri := NewStaticCollection[vPri](nil, nil, WithStop(stop), WithName("pri"))
 	sec := NewStaticCollection[vSec](nil, nil, WithStop(stop), WithName("sec"))
+	byApp := NewIndex[string, vSec](sec, "app", func(s vSec) []string { return []string{s.App} })
 	out := NewCollection(pri, func(ctx HandlerContext, p vPri) *vOut {
-		secs := Fetch(ctx, sec, FilterLabel(map[string]string{"app": p.Sel}))
+		var secs []vSec
+		if byIndex {
+			secs = Fetch(ctx, sec, FilterIndex(byApp, p.Sel)) // dependency through an index bucket
+		} else {
+			secs = Fetch(ctx, sec, FilterLabel(map[string]string{"app": p.Sel})) // dependency through a label filter
+		}
 		o := &vOut{Name: p.Name, Sum: p.Val, N: len(secs)}
 		for _, s := range secs {
 			o.Sum += s.Val
@@ -113,7 +119,8 @@ func verifHistory(steps int, twin bool) {
 	}, WithStop(stop), WithName("out"))
 	out.WaitUntilSynced(stop)
 	stream := &verifStream{}
-	late := vp.Choice("lateHandler", 2) == 1
+	// (the index variant registers its handler first in the quick tier)
+	late := (!byIndex || vp.Tier() > 0) && vp.Choice("lateHandler", 2) == 1
 	if !late {
 		out.Register(stream.handle)
 	}
@@ -199,7 +206,10 @@ func verifHistory(steps int, twin bool) {
 	close(stop)
 }
 
-func VerifC16DerivedCollection() { verifHistory(3, false) }
+func VerifC16DerivedCollection() { verifHistory(3, false, false) }
+
+// the same with the secondary collection fetched through an index (reverse-indexed dependencies)
+func VerifC16IndexFetch() { verifHistory(3, false, true) }
 
 // Mutant twin: "the derived collection stays empty" must be refuted.
-func VerifC16Twin() { verifHistory(1, true) }
+func VerifC16Twin() { verifHistory(1, true, false) }
